@@ -7,7 +7,7 @@ from .common import tier, seed
 from . import value_layer as VL
 from . import checks_value as CV
 from .props_value import run_direct_property
-from .values import INT_TYPES, FLOAT_TYPES, f_from_bits, f_class
+from .values import INT_TYPES, FLOAT_TYPES, f_from_bits, f_class, f_bits as f_bits_
 
 FORMATS = ("json", "ron", "msgpack", "msgpack_named")
 POSITIONS = ("top", "vec", "opt", "field", "mapval", "tuple", "mapkey")
@@ -85,9 +85,45 @@ def int_texts(d):
     return sorted(T)
 
 
+def midpoint_texts(ty, bits):
+    """decimal strings right at, just below and just above the rounding midpoint between the pattern and its
+    successor: where a parser that rounds twice (e.g. through a wider type) goes wrong."""
+    from fractions import Fraction
+    a, b = f_from_bits(ty, bits), f_from_bits(ty, bits + 1)
+    if f_class(ty, bits) != "num" or f_class(ty, bits + 1) != "num" or a == 0.0 or b == 0.0:
+        return []
+    mid = (Fraction(a) + Fraction(b)) / 2
+    neg = mid < 0
+    mid = abs(mid)
+    # exact decimal expansion of the midpoint (a dyadic rational), up to 120 significant digits
+    ip = mid.numerator // mid.denominator
+    frac = mid - ip
+    digits = []
+    for _ in range(120):
+        if frac == 0:
+            break
+        frac *= 10
+        dgt = frac.numerator // frac.denominator
+        digits.append(str(dgt))
+        frac -= dgt
+    base = "%d.%s" % (ip, "".join(digits) or "0")
+    if len(base) > 110:
+        return []
+    sign = "-" if neg else ""
+    return [sign + base, sign + base + "1", sign + base[:-1] + str(max(0, int(base[-1]) - 1)) + "9"]
+
+
 def float_texts(d):
     ty = d["ty"]
     T = set()
+    marks = set()
+    for r in d["val"]:
+        if r["k"] in ("greater", "greater_or_equal", "less", "less_or_equal"):
+            marks.add(r["b"])
+    marks.update([f_bits_(ty, 1.0), f_bits_(ty, 5.5), f_bits_(ty, 0.1), f_bits_(ty, 1e10)])
+    for b in sorted(marks):
+        for k in (-1, 0):
+            T.update(midpoint_texts(ty, b + k))
     for b in VL.float_inputs(d, random.Random(0), 0):
         c = f_class(ty, b)
         x = f_from_bits(ty, b)
@@ -100,7 +136,17 @@ def float_texts(d):
     return sorted(T)
 
 
+POINT_TEXTS = ["1,2", "2,1", "3,3", "1,1", " 1,2", "1,2 ", "1, 2", "1,2,3", "1", "", ",", "a,b", "1;2", "-1,1", "1,-1", "+1,+2",
+               "99999999999,1", "2147483647,-2147483648", "1,2\n", "0x1,2", "1_0,2", "١,٢"]
+
+
 def rows_parse(d, rng):
+    if d["fam"] == "any":
+        texts = list(POINT_TEXTS)
+        for _ in range(40 if tier() == "quick" else 1000):
+            texts.append("%d,%d" % (rng.randint(-5, 5), rng.randint(-5, 5)))
+            texts.append("".join(rng.choice("0123456789,-+ a") for _ in range(rng.randint(1, 6))))
+        return [{"d": d["id"], "ep": "parse", "ins": [[ord(c) for c in t] for t in texts]}]
     texts = int_texts(d) if d["fam"] == "int" else float_texts(d)
     pool = "0123456789+-.eE _naifNI\u00a0x"
     n = 60 if tier() == "quick" else 2000
@@ -114,8 +160,9 @@ def rows_parse(d, rng):
 
 def check_C06():
     q = tier() == "quick"
-    sizes = {"int": 70, "float": 60} if q else {"int": 400, "float": 400}
-    return run_direct_property("C06", None, sizes, 0, False, rows_fn=rows_parse, fams=("int", "float"),
+    sizes = {"int": 70, "float": 60, "any": None} if q else {"int": 400, "float": 400, "any": None}
+    return run_direct_property("C06", None, sizes, 0, False, rows_fn=rows_parse, fams=("int", "float", "any"),
+                               decl_filter=lambda ad: ad["fam"] != "any" or ad["ty"] == "Point",
                                evidence_extra={"texts": "decimal renderings of every landmark and neighbour, MIN-1/MAX+1, overflowing digit runs, signs, "
                                                "ASCII/Unicode whitespace, hex/underscore/exponent forms, NaN/inf/-0/1e400 spellings, non-ASCII digits, random text; "
                                                "each event logs the inner type's own FromStr result (environment) next to the newtype's"})
